@@ -67,4 +67,36 @@ var plans = map[string]*Plan{
 		Real:        microReal, Stub: microStub, Assumptions: commonAssumptions,
 		ExpectProbes: []string{"ejection", "recovered"},
 	},
+	"C05": {
+		Level:     "exploration",
+		Scenarios: []ScenPlan{{"lbdist", 40000, 800000}},
+		QuickWallS: 120, ThoroughWallS: 1500,
+		Rule:        "Scenario lbdist: pools of 1-6 (thorough 1-8) backends, weights 0-6, a drawn history of add/remove(heaviest-biased)/eject-through-real-failures/recover/traffic, then a measurement window with a stable eligible set: round_robin exact window and exact totals under 2-8 (thorough 2-64) concurrent pickers; weighted_round_robin exact fresh-pool windows at every offset and the 2*W_total/W_eligible bound over every sub-window after a history; least_connections minimal in-flight against the harness' own tallies of held requests.",
+		Real:        microReal, Stub: microStub, Assumptions: commonAssumptions,
+		ExpectProbes: []string{"rr-concurrent", "wrr-fresh", "wrr-history", "lc-dispatch"},
+	},
+	"C06": {
+		Level:     "exploration",
+		Scenarios: []ScenPlan{{"lbaff", 12000, 200000}},
+		QuickWallS: 120, ThoroughWallS: 1500,
+		Rule:        "Scenario lbaff: ip_hash / ip_hash_consistent, 1-6 backends, 16-64 (thorough 64-512) client identities (IPv4/IPv6 peers, X-Forwarded-For single/list/junk, X-Real-IP) issuing sequential and concurrent requests with varying paths/ports/headers across a drawn history of appends, removes, ejections and expiries (epochs); oracle: one identity -> one backend per epoch, append moves a key only to the appended backend, every choice eligible, no panic. The exhaustive 2^32 sweep of the hash step is NOT performed (pure function; DESIGN.md §4).",
+		Real:        microReal, Stub: microStub, Assumptions: commonAssumptions,
+		ExpectProbes: []string{"append-moved-key", "concurrent-traffic"},
+	},
+	"C13": {
+		Level:     "exploration",
+		Scenarios: []ScenPlan{{"lbacct", 30000, 600000}},
+		QuickWallS: 120, ThoroughWallS: 1500,
+		Rule:        "Scenario lbacct: every request class (ok, 4xx, 5xx, unreachable, aborted mid-body, client gone, rate-limited, breaker-rejected, no healthy backend, held) sequentially and with 2-8 (thorough 2-64) concurrent clients; conservation equations against the harness' own tallies at every quiescent point.",
+		Real:        microReal, Stub: microStub, Assumptions: commonAssumptions,
+		ExpectProbes: []string{"concurrent-mix", "gauge-while-held"},
+	},
+	"C11": {
+		Level:     "exploration",
+		Scenarios: []ScenPlan{{"lbadmin", 30000, 600000}},
+		QuickWallS: 120, ThoroughWallS: 1500,
+		Rule:        "Scenario lbadmin: the real adminapi mux; a sequential phase and a concurrent phase (2-4 admin actors, 0-3 traffic tasks) over add/remove/set_strategy/list with repeated names, absent names, unparsable addresses, unknown strategies; step-stamped history (<= 48 ops) checked with porcupine against a sequential multiset model; traffic must be served (a permanent backend exists) and never by a definitely-removed backend; strategy switch must preserve health.",
+		Real:        microReal, Stub: microStub, Assumptions: append(append([]string{}, commonAssumptions...), "porcupine v1.3.0 decides linearizability; Unknown (timeout) results are counted, never reported"),
+		ExpectProbes: []string{"concurrent-admin", "linearizable", "switch-with-ejected-backend"},
+	},
 }
